@@ -711,6 +711,12 @@ impl Mp4TrackWriter {
                 trak.mdia.minf.stbl.stsd.vp09 = Some(Vp09Box::new(config));
             }
             MediaConfig::AacConfig(ref aac_config) => {
+                if aac_config.profile as u8 > 30 {
+                    // the decoder specific info is written with the plain 5-bit object type only
+                    return Err(Error::InvalidData(
+                        "audio object type does not fit the 5-bit field",
+                    ));
+                }
                 let smhd = SmhdBox::default();
                 trak.mdia.minf.smhd = Some(smhd);
 
